@@ -106,3 +106,52 @@ impl rand_core::RngCore for ScriptRng {
         Ok(())
     }
 }
+
+
+// ---- panic site capture ----------------------------------------------------------------------
+
+static PANIC_SITE: std::sync::Mutex<String> = std::sync::Mutex::new(String::new());
+
+/// Install a panic hook that stays silent (unless MBHARNESS_PANIC_MSG is set) and records the
+/// source location of the last panic.
+pub fn install_panic_hook() {
+    let verbose = std::env::var_os("MBHARNESS_PANIC_MSG").is_some();
+    let default = std::panic::take_hook();
+    std::panic::set_hook(Box::new(move |info| {
+        if let Some(l) = info.location() {
+            if let Ok(mut g) = PANIC_SITE.lock() {
+                *g = format!("{}:{}", l.file(), l.line());
+            }
+        }
+        if verbose {
+            default(info);
+        }
+    }));
+}
+
+/// Location of the last panic in a canonical, machine-independent form:
+/// `maybenot:<file under crates/maybenot*/src>:<line>` for the code under test,
+/// `ext:<crate-version>/<path>:<line>` for a dependency from the cargo registry,
+/// `std:<path>:<line>` for the standard library. Empty if unknown.
+pub fn take_panic_site() -> String {
+    let raw = match PANIC_SITE.lock() {
+        Ok(mut g) => std::mem::take(&mut *g),
+        Err(_) => String::new(),
+    };
+    if raw.is_empty() {
+        return raw;
+    }
+    if let Some(i) = raw.find("/crates/maybenot") {
+        return format!("maybenot:{}", &raw[i + "/crates/".len()..]);
+    }
+    if let Some(i) = raw.find("/registry/src/") {
+        let rest = &raw[i + "/registry/src/".len()..];
+        if let Some(j) = rest.find('/') {
+            return format!("ext:{}", &rest[j + 1..]);
+        }
+    }
+    if let Some(i) = raw.find("/library/") {
+        return format!("std:{}", &raw[i + "/library/".len()..]);
+    }
+    format!("unknown:{}", raw.rsplit('/').next().unwrap_or(""))
+}
